@@ -16,15 +16,17 @@ func init() {
 			"C04.2 every insertion into the unqueried frontier is dominated by NodeFilter(n)=true for the inserted n; " +
 			"C04.3 at most once per address: the queried set is written and read under one key encoding; every insertion into it is dominated, within one critical section, by a failed lookup of the same key, and the address handed to DoQuery is the one marked; " +
 			"C04.4 the context handed to DoQuery comes from context.WithCancel whose cancel function is called by a watcher goroutine, started before the query, on the stopping event; cancel is also called after the query returns; " +
+			"C04.6 inside the traversal package the caller's Alpha and K are overwritten only on paths where the value is known to be ≤ 0 (unset), so the bound of C04.1 is the configured one; " +
 			"C04.5 every traversal.Start in library code installs (*Server).TraversalNodeFilter, whose true-class excludes blocked IPs, invalid addresses and (with security on) insecure known IDs.",
 		NotDecided: "the numeric bound 'never more than Alpha' beyond the dominance argument (a '<=' for '<' is a value-level change), behaviour of the DoQuery callbacks themselves, timing of cancellation.",
-		Assume: []string{"Operation fields are only touched under Operation.mu (checked as C02.5)"},
+		Assume:     []string{"Operation fields are only touched under Operation.mu (checked as C02.5)"},
 		Rules: []*Rule{
 			{ID: "C04.1", Doc: "bounded fan-out", Floor: 4, Run: c04r1},
 			{ID: "C04.2", Doc: "filter before frontier", Floor: 1, Run: c04r2},
 			{ID: "C04.3", Doc: "at most once per address: atomic test-and-set under one key encoding", Floor: 3, Run: c04r3},
 			{ID: "C04.4", Doc: "per-query context cancelled on stop", Floor: 3, Run: c04r4},
 			{ID: "C04.5", Doc: "built-in lookups install the server node filter", Floor: 5, Run: c04r5},
+			{ID: "C04.6", Doc: "the configured Alpha and K are replaced by a default only when unset", Floor: 2, Run: c04r6},
 		},
 	})
 }
@@ -446,4 +448,68 @@ func c04r5(w *World, rr *RuleRun) {
 		}
 	}
 	rr.Oblige(shortFuncName(filter), "filter=true ⇒ ID unknown ∨ NoSecurity ∨ NodeIdSecure(id, ip)", w.P.Pos(filter.Pos()), okSec, "true-class "+trunc(sum.String(), 400))
+}
+
+// c04r6: the Alpha that bounds the fan-out (and the K that sizes the result) is the caller's; the
+// traversal package may substitute a default only for an unset (non-positive) value.
+func c04r6(w *World, rr *RuleRun) {
+	t := w.trav()
+	var fns []*ssa.Function
+	for _, fn := range w.P.LibFuncs {
+		if fn.Pkg != nil && fn.Pkg.Pkg.Name() == "traversal" {
+			fns = append(fns, fn)
+		}
+	}
+	for _, fv := range []*types.Var{t.alpha, t.k} {
+		fv := fv
+		n := 0
+		for _, ins := range w.FieldWrites(fns, fv) {
+			st, ok := ins.(*ssa.Store)
+			if !ok {
+				continue
+			}
+			n++
+			w.Require(rr, st, "OperationInput."+fv.Name()+" is overwritten only when unset (≤ 0)", func(alt *Alt) (bool, string) {
+				unset := alt.Has("b", true, func(x *Term) bool {
+					// X == 0, X < c with c ≤ 1
+					if x.Op != OpBin {
+						return false
+					}
+					if x.Name == "==" {
+						return (x.Args[0].IsConst("0") && isFieldTerm(x.Args[1], fv)) || (x.Args[1].IsConst("0") && isFieldTerm(x.Args[0], fv))
+					}
+					if x.Name == "<" && isFieldTerm(x.Args[0], fv) {
+						c, ok := termInt(x.Args[1])
+						return ok && c <= 1
+					}
+					return false
+				}) || alt.Has("b", false, func(x *Term) bool {
+					// ¬(c < X) with c ≤ 0
+					if x.Op != OpBin || x.Name != "<" || !isFieldTerm(x.Args[1], fv) {
+						return false
+					}
+					c, ok := termInt(x.Args[0])
+					return ok && c <= 0
+				})
+				if unset {
+					return true, fv.Name() + " ≤ 0 on this path"
+				}
+				return false, "a configured positive " + fv.Name() + " may be overwritten here"
+			})
+		}
+		if n == 0 {
+			rr.ObligeTrivial("traversal", "OperationInput."+fv.Name()+" is never overwritten inside the traversal package", "-", true, "no store")
+		}
+	}
+}
+
+func termInt(t *Term) (int64, bool) {
+	if t == nil || t.Op != OpConst {
+		return 0, false
+	}
+	var n int64
+	if _, err := fmt.Sscanf(t.Name, "%d", &n); err != nil || fmt.Sprint(n) != t.Name {
+		return 0, false
+	}
+	return n, true
 }
